@@ -1220,6 +1220,10 @@ def adapt_type(src, found, kind, name, report):
             out.append(f"impl{gen} PartialEq for {tyname} {{\n    #[verifier::external_body]\n    fn eq(&self, other: &Self) -> (b: bool) ensures b == (*self == *other) {{ unimplemented!() }}\n}}\n")
         if "Eq" in derives:
             out.append(f"impl{gen} Eq for {tyname} {{}}\n")
+        if "Ord" in derives:
+            gen_list.append("Ord (no contract: only sort(), under its assumed permutation contract, uses it)")
+            out.append(f"impl{gen} PartialOrd for {tyname} {{\n    #[verifier::external_body]\n    fn partial_cmp(&self, other: &Self) -> Option<std::cmp::Ordering> {{ unimplemented!() }}\n}}\n")
+            out.append(f"impl{gen} Ord for {tyname} {{\n    #[verifier::external_body]\n    fn cmp(&self, other: &Self) -> std::cmp::Ordering {{ unimplemented!() }}\n}}\n")
         if "IntoIterator" in derives:
             ads.append({"rule": "D7", "what": "derive_more::IntoIterator dropped; delegating impls come from the unit template"})
         ads.append({"rule": "D1", "what": f"derive({', '.join(derives)}) dropped; external_body impls assumed structural: {gen_list}"})
